@@ -32,8 +32,8 @@ PLAN = plan(60, 900, ["benign", "lossy", "lossy", "hostile", "resumed"])
 FAULTS = ("drop", "dup", "delay", "blackout", "timer-late", "clock", "rebind")
 PROFILES = {
     "benign": {"fault_free": True},
-    "lossy": {"faults": FAULTS},
-    "hostile": {"faults": FAULTS, "hostile": True},
+    "lossy": {"faults": FAULTS, "allow_vn": True, "retry_p": 0.15},
+    "hostile": {"faults": FAULTS, "hostile": True, "allow_vn": True, "retry_p": 0.15},
 }
 
 
